@@ -36,7 +36,7 @@ class Obj:
 
 
 class Frame:
-    __slots__ = ("func", "blk", "ip", "locals", "prev", "allocas", "instrs", "vararg")
+    __slots__ = ("func", "blk", "ip", "locals", "prev", "allocas", "instrs", "vararg", "called")
 
     def __init__(self, func):
         self.func = func
@@ -47,6 +47,7 @@ class Frame:
         self.prev = None
         self.allocas = []
         self.vararg = []
+        self.called = True
 
     def copy(self):
         f = Frame.__new__(Frame)
@@ -58,6 +59,7 @@ class Frame:
         f.prev = self.prev
         f.allocas = list(self.allocas)
         f.vararg = self.vararg
+        f.called = self.called
         return f
 
 
@@ -526,9 +528,14 @@ class Engine:
                 o = self.new_obj(st, max(size, 8), name="@" + name, zero=True, kind="global")
                 st.globals[name] = o.id
                 if name.startswith("_ZTT"):
-                    vt = self.new_obj(st, 256, name="vtable(model)", zero=True, kind="global")
+                    from . import streams
+                    kind = streams.kind_of_symbol(name)
+                    vt = self.stream_model_vtable(self, st, kind) if kind else None
+                    if vt is None:
+                        v0 = self.new_obj(st, 256, name="vtable(model)", zero=True, kind="global")
+                        vt = Ptr(v0.id, 64)
                     for i in range(0, size, 8):
-                        o.cells[i] = (Ptr(vt.id, 64), 8)
+                        o.cells[i] = (vt, 8)
                 return Ptr(o.id, 0)
             if h is None:
                 # opaque external data object (e.g. std::cout, typeinfo, vtable): zero-sized named object
@@ -680,7 +687,7 @@ class Engine:
                     if isinstance(a.off, int) and isinstance(b.off, int):
                         return (a.off - b.off) & mask(bits)
                     return bv(a.off, 64) - bv(b.off, 64)
-                raise EngineError("subtraction of pointers into different objects")
+                return UNDEF   # speculated difference of unrelated pointers: error only if used
             raise EngineError("pointer+pointer")
         if pa:
             d = b if op == "add" else (-b if not is_sym(b) else -b)
@@ -690,7 +697,7 @@ class Engine:
         if pb:
             if op == "add":
                 return Ptr(b.obj, self.padd(b.off, to_signed(a, 64) if not is_sym(a) else a))
-            raise EngineError("int - pointer")
+            return UNDEF   # e.g. speculated (null - p): only an error if the value is used
         return int_bin(op, a, b, bits)
 
     # ------------------------------------------------------------ operand evaluation
@@ -713,7 +720,20 @@ class Engine:
         fr = Frame(f)
         for (t, n), a in zip(f.params, args):
             fr.locals[n] = a
+        fr.called = False
         st.frames.append(fr)
+        # static initialisers kept in the slice run first (concretely, in order)
+        g = self.mod.globals.get("llvm.global_ctors")
+        if g is not None and g.init is not None and g.init[0] == "agg":
+            for t, e in reversed(g.init[1]):
+                fn = e[1][1][1]
+                while fn[0] == "cexpr":
+                    fn = fn[2][1]
+                cf = self.mod.funcs.get(fn[1])
+                if cf is not None and not cf.is_decl:
+                    nf = Frame(cf)
+                    nf.called = False
+                    st.frames.append(nf)
         work = [st]
         res = self.res
         while work:
@@ -807,6 +827,10 @@ class Engine:
                 r = self.step(st, fr, ins)
             except MemError as me:
                 raise MemError("%s [in %s: %s]" % (me, P_dem(fr.func.name), ins.text[:100]))
+            except EngineError as ee:
+                if "[in " in str(ee):
+                    raise
+                raise EngineError("%s [in %s: %s]" % (ee, P_dem(fr.func.name), ins.text[:140]))
             except SymOffset as so:
                 r = self.fork_on_values(st, so.term, "offset")
                 if r is None:
@@ -1270,6 +1294,8 @@ class Engine:
             return None
         c = st.frames[-1]
         ins = c.instrs[c.ip]
+        if not fr.called:
+            return None
         if ins.dst is not None:
             c.locals[ins.dst] = v
         if ins.op == "invoke":
